@@ -116,7 +116,21 @@ def probe_free_deactivates(repo):
 
 # ------------------------------------------------------------------ Coq terms of an observation
 def c_optz(v):
-    return "None" if v is None else f"(Some {sa.cz(v)})"
+    # a handle whose read raised ("exc:<type>") carries no value; bcase_coq marks the run as failed
+    return "None" if v is None or isinstance(v, str) else f"(Some {sa.cz(v)})"
+
+
+def read_failures(obs):
+    """handle reads that raised on the host -> list of descriptions"""
+    out = []
+    for k, s in enumerate(obs.get("flushes") or []):
+        for key, v in list(s.get("futs", {}).items()) + [("reg " + str(r), v) for r, v in s.get("regs", {}).items()]:
+            if isinstance(v, str):
+                out.append(f"flush {k}: reading handle {key} raised {v[4:]}")
+        for a, l in s.get("arrays", {}).items():
+            if isinstance(l, str) or any(isinstance(x, str) for x in (l or [])):
+                out.append(f"flush {k}: reading array {a} raised")
+    return out
 
 
 def c_optlist(l):
@@ -157,7 +171,7 @@ def c_reads(snap):
 
 
 def bcase_coq(prog, script, obs):
-    ok = obs["status"] == "ok"
+    ok = obs["status"] == "ok" and not read_failures(obs)
     fl = sa.coq_list(f"mkF {c_reads(s)} {c_arrays(s.get('ctrl_arrays', {}))}" for s in obs["flushes"])
     final = c_arrays(obs["final_arrays"] or {})
     tr = sa.coq_list(c_tev(e) for e in obs["trace"])
@@ -176,8 +190,10 @@ def scase_coq(fd, prog, obs):
     return f"mkS {sa.coq_bool(fd)} {sa.coq_block(prog)} {blocks}"
 
 
-def acase_coq(fd, prog, steps, peaks):
-    st = sa.coq_list("AErr" if s is None else "AOk " + sa.coq_list(f"{i}%nat" for i in s) + f" {peaks[j]}"
+def acase_coq(fd, prog, steps, peaks, mused=None):
+    mused = mused if mused is not None else getattr(run_sequence, "mused", [])
+    st = sa.coq_list("AErr" if s is None else "AOk " + sa.coq_list(f"{i}%nat" for i in s) + f" {peaks[j]} "
+                     + sa.coq_list(f"{i}%nat" for i in mused[j])
                      for j, s in enumerate(steps))
     return f"mkA {sa.coq_bool(fd)} {sa.coq_block(prog)} {st}"
 
@@ -292,15 +308,42 @@ BCODE = {1: "the specification gives the program no meaning (generator produced 
 
 
 # ------------------------------------------------------------------ C14: long sequences on one connection
-def run_sequence(repo, prog, compile_only=True, max_qubits=64, assemble=True):
+def run_sequence(repo, prog, compile_only=True, max_qubits=64, assemble=True, mode="compile", block=True):
     """every top-level statement on ONE real connection; after each: the sorted active
-    register indices, or None when the SDK raised (the run stops there)."""
+    register indices, or None when the SDK raised (the run stops there).
+    mode "compile": the harness connection, a flush = pop + assemble + builder reset (nothing sent);
+    mode "debug":   the SDK's own DebugConnection (no controller answers: no value ever becomes readable
+                    on the host) and the real conn.flush(block=..) path; `block` is a bool or "alternate".
+    No handle is ever read by the harness here."""
     from sdk_pipeline import Pipeline
 
     pipe = Pipeline(repo, max_qubits=max_qubits)
     sock = pipe.epr_socket()
-    conn = pipe.connection(epr_sockets=[sock])
+    if mode == "debug":
+        from netqasm.sdk.build_types import GenericHardwareConfig
+
+        conn = pipe.cls["DebugConnection"]("Alice", epr_sockets=[sock], max_qubits=max_qubits,
+                                           hardware_config=GenericHardwareConfig(max_qubits))
+    else:
+        conn = pipe.connection(epr_sockets=[sock])
     it = sa.Interp(conn, pipe)
+    n_flush = [0]
+
+    def real_flush():
+        n_flush[0] += 1
+        blk = (n_flush[0] % 2 == 0) if block == "alternate" else bool(block)
+        proto = conn._builder.subrt_pop_pending_subroutine()
+        if proto is None:
+            return
+        try:
+            conn.commit_protosubroutine(protosubroutine=proto, block=blk)
+        except RuntimeError as e:
+            if "no registers left" not in str(e):
+                raise
+            # the assembler's own scratch registers (C03): depends on this one block only
+            it.asm_failures = getattr(it, "asm_failures", 0) + 1
+            conn._builder._pending_reg_futures = []
+            conn._builder._reset()
     it.sock = sock
     steps, err = [], None
     peak = [0]
@@ -313,11 +356,14 @@ def run_sequence(repo, prog, compile_only=True, max_qubits=64, assemble=True):
 
     mm.add_active_register = add
     peaks = []
+    mused = []         # per step: M registers marked in use
     user = []          # per step: registers claimed by builder.new_register() so far (legitimately live)
     newregs = set()
     for i, s in enumerate(prog):
         try:
-            if s[0] == "flush" and compile_only:
+            if s[0] == "flush" and mode == "debug":
+                real_flush()
+            elif s[0] == "flush" and compile_only:
                 it.compile_only(assemble=assemble)
             else:
                 it.stmt(s)
@@ -329,10 +375,12 @@ def run_sequence(repo, prog, compile_only=True, max_qubits=64, assemble=True):
             break
         steps.append(sa.active_regs(conn))
         peaks.append(peak[0])
+        mused.append(sorted(r.index for r, u in mm._used_meas_registers.items() if u))
         collect_newregs([s], newregs)
         user.append(sorted(it.reg[r].reg.index for r in newregs if r in it.reg))
     # no conn.close(): it would execute what is still pending
     run_sequence.user = user
+    run_sequence.mused = mused
     run_sequence.asm_failures = getattr(it, "asm_failures", 0)
     return steps, err, peaks
 
